@@ -240,7 +240,7 @@ func runTypedScenario(t *testing.T, tr *tracer, idx int, seed uint64) {
 		settle(&hookN)
 		obs()
 		for i := 8 + r.Intn(10); i > 0; i-- {
-			for j := 1 + r.Intn(3); j > 0; j-- {
+			for j := inflight(1 + r.Intn(3)); j > 0; j-- {
 				change()
 			}
 			settle(&hookN)
